@@ -77,6 +77,10 @@ class DLLSpec(Spec):
     def initials(self):
         return [[], [0], [0, 1, 2]]
 
+    def decoy(self):
+        l = DoublyLinkedList([self.payload(None), self.payload(None)])
+        return l, lambda x: (canon(x), len(x), [id(d) for d in x])
+
     def payload(self, st):
         if self.mode == "distinct":
             return Opaque()
